@@ -9,10 +9,12 @@ import subprocess
 import sys
 import time
 
-ROOT = "/verif"
+# The registered commands run with the defaults; VERIF_ROOT / VERIF_REPO exist for tools/mutants, which runs the
+# checks from private copies of /verif against scratch worktrees of /repo in parallel.
+ROOT = os.environ.get("VERIF_ROOT", "/verif")
 COQ = f"{ROOT}/coq"
 BUILD = f"{ROOT}/build"
-REPO = "/repo"
+REPO = os.environ.get("VERIF_REPO", "/repo")
 GOENV = dict(GOFLAGS="-mod=mod", GOPROXY="off", GOSUMDB="off", GOTOOLCHAIN="local",
              CGO_ENABLED="0")
 FORBIDDEN = re.compile(r"\b(Admitted|admit|Axiom|Axioms|Parameter|Parameters|Conjecture|Conjectures|"
